@@ -1,6 +1,11 @@
 """Merge /verif/findings/*.json into known_findings.json, skipping keys listed in FIXED (fixed by commits in /repo)."""
 import glob, json, subprocess, sys
 FIXED = {  # key -> (property, commit subject prefix)
+  "C32:solver.solve:sleep-enabled-island-disabled-crash": ("C32", "fix: solve takes the sleep path only when islands"),
+  "C32:deriv_smooth_vel:fluid-derivative-with-passive-disabled": ("C32", "fix: deriv_smooth_vel skips the fluid derivative"),
+  "C26:discrete_acc:implicitfast:fluid-derivative-with-passive-disabled": ("C26", "fix: deriv_smooth_vel skips the fluid derivative"),
+  "C32:_energy_pos:energy-zeroed-after-energy-sensor": ("C32", "fix: energy computed by energy sensors"),
+  "C32:put_model:several-unsupported-bits-raise-ValueError": ("C32", "fix: put_model reports several unsupported"),
   "C34:ray_mesh:non-unit-direction": ("C34", "fix: mesh and hfield rays accept non-unit directions"),
   "C34:bvh:flex-stride-multiworld": ("C34", "fix: BVH ray query uses the per-world stride"),
   "C34:bvh:mesh-bounds-not-centred": ("C34", "fix: mesh BVH bounds cover meshes not centred"),
